@@ -132,3 +132,84 @@ parked_run(Params *p)
 SCENARIO(c18_parked, "C18", NULL, parked_run);
 
 } // namespace
+
+// ---------------------------------------------------------------------------
+// c18_ctxrace: several application threads open and close contexts of one
+// socket at the same time, holding enough of them for the identifier table to
+// grow while the others are busy in it.  "Identifiers are unique among live
+// objects"; every live context is found by its id and closes exactly once.
+#include <set>
+namespace {
+
+struct CtxRace {
+	nng_socket         s;
+	std::set<uint32_t> live; // harness-side: ids of contexts currently open
+	int                opened;
+};
+
+static void
+ctxrace_task(void *a)
+{
+	CtxRace             *w = (CtxRace *) a;
+	std::vector<nng_ctx> mine;
+	int                  n = (int) W(20, 70);
+	for (int i = 0; i < n; i++) {
+		bool open = mine.empty() || W(0, 9) < 6;
+		if (open) {
+			nng_ctx c;
+			int     rv = nng_ctx_open(&c, w->s);
+			if (rv != 0)
+				VIOL("ctx_open_failed", "nng_ctx_open returned %d", rv);
+			uint32_t id = (uint32_t) nng_ctx_id(c);
+			if (id == 0 || id > 0x7fffffffu)
+				VIOL("id_out_of_range", "context id %u", id);
+			if (!w->live.insert(id).second)
+				VIOL("id_not_unique", "nng_ctx_open returned id %u, which another open context already has (%zu open)", id,
+				    w->live.size());
+			w->opened++;
+			mine.push_back(c);
+		} else {
+			size_t  k = (size_t) W(0, (long) mine.size() - 1);
+			nng_ctx c = mine[k];
+			mine.erase(mine.begin() + (long) k);
+			int v;
+			int rv = nng_ctx_get_int(c, NNG_OPT_RECVBUF, &v);
+			if (rv == NNG_ECLOSED || rv == NNG_ENOENT)
+				VIOL("live_id_not_found", "an open context (id %u) is not found by its id (%d)", (uint32_t) nng_ctx_id(c), rv);
+			w->live.erase((uint32_t) nng_ctx_id(c));
+			rv = nng_ctx_close(c);
+			if (rv != 0)
+				VIOL("live_id_not_found", "nng_ctx_close of an open context (id %u) returned %d", (uint32_t) nng_ctx_id(c), rv);
+		}
+		if (W(0, 3) == 0)
+			sim_yield();
+	}
+	for (auto c : mine) {
+		w->live.erase((uint32_t) nng_ctx_id(c));
+		int rv = nng_ctx_close(c);
+		if (rv != 0)
+			VIOL("live_id_not_found", "nng_ctx_close of an open context (id %u) returned %d", (uint32_t) nng_ctx_id(c), rv);
+	}
+}
+
+static void
+ctxrace_run(Params *p)
+{
+	(void) p;
+	CtxRace w;
+	w.opened = 0;
+	static int (*const OP[])(nng_socket *) = { nng_req0_open, nng_rep0_open, nng_sub0_open, nng_surveyor0_open, nng_respondent0_open };
+	MUST(OP[W(0, 4)](&w.s));
+	int nt = 2 + (int) W(0, 2);
+	for (int i = 0; i < nt; i++)
+		sim_spawn("ctxrace", ctxrace_task, &w, 0);
+	sim_join_all();
+	if (!w.live.empty())
+		h_fatal("bookkeeping: %zu ids left", w.live.size());
+	if (w.opened > 30)
+		sim_stat("nontrivial", 1);
+	MUST(nng_socket_close(w.s));
+}
+SCENARIO(c18_ctxrace, "C18", NULL, ctxrace_run);
+
+} // namespace
